@@ -596,9 +596,34 @@ class Analyzer(cfg.GraphVisitor):
           types_out.types[s] = {Any}
       # TODO(mdan): Check that it's actually safe to skip nodes without scope.
       reads = {str(qn) for qn in node_scope.read}
-      for def_node in reaching_fndefs:
-        if def_node.name in reads:
-          self._update_closure_types(def_node, types_out)
+      called = [d for d in reaching_fndefs if d.name in reads]
+      # A local function that may run here can rebind variables of this
+      # function through nonlocal; so can the local functions it may call in
+      # turn, and the functions nested in it. The type of such a variable is
+      # not known afterwards.
+      pending, seen = list(called), set()
+      while pending:
+        def_node = pending.pop()
+        if def_node in seen:
+          continue
+        seen.add(def_node)
+        for fn_node in ast.walk(def_node):
+          if not isinstance(fn_node, ast.FunctionDef):
+            continue
+          fn_scope = anno.getanno(
+              fn_node, annos.NodeAnno.ARGS_AND_BODY_SCOPE, None)
+          if fn_scope is None:
+            continue
+          for s in fn_scope.modified & fn_scope.nonlocals:
+            if s in types_out.types:
+              types_out.types[s] = types_out.types[s] | {Any}
+        def_scope = anno.getanno(
+            def_node, annos.NodeAnno.ARGS_AND_BODY_SCOPE, None)
+        if def_scope is not None:
+          def_reads = {str(qn) for qn in def_scope.read}
+          pending.extend(d for d in reaching_fndefs if d.name in def_reads)
+      for def_node in called:
+        self._update_closure_types(def_node, types_out)
 
     self.in_[node] = types_in
     self.out[node] = types_out
